@@ -4,6 +4,7 @@ mod emitter;
 pub mod error;
 mod includes;
 mod inline;
+mod nesting;
 mod parser;
 mod references;
 pub mod stats;
@@ -104,6 +105,7 @@ impl Compiler {
             .as_deref()
             .unwrap_or("<source>");
         let parsed_story = includes::parse_story_with_includes(source, &file_handler, source_name)?;
+        nesting::check_weave_depth(&parsed_story).map_err(|e| e.with_file(source_name))?;
         let parsed_story = consts::resolve(parsed_story);
         validator::validate(&parsed_story)?;
         let story_document =
